@@ -63,15 +63,16 @@ def run(replay=None):
         rec.simplify(text, obj)
         rec.replace(text, obj, True, 'M')
         rec.replace(text, obj, False, 'A')
+        rec.refactor(text, obj, 'A')
         if isbool:
             rec.split_and(text, obj)
-            rec.refactor(text, obj, 'A')
             if rnd.random() < 0.3:
                 rec.refactor(text, obj, 'C')
     for text, obj in api_calls():
         rec.simplify(text, obj)
         rec.replace(text, obj, True, 'M')
         rec.replace(text, obj, False, 'A')
+        rec.refactor(text, obj, 'A')
     props, stats = accepted(thorough, salt='c14')
     rep.add_tlc(stats)
     n = 0
